@@ -1,0 +1,204 @@
+//go:build verif
+
+// Verification hooks: thin exported wrappers around unexported functions and
+// read-only dumps of internal state, compiled only with `-tags verif`. Nothing in
+// here changes behaviour; the file only adds code.
+
+package girc
+
+import (
+	"reflect"
+	"sort"
+	"time"
+)
+
+// VerifSplitMessage exposes splitMessage.
+func VerifSplitMessage(input string, maxWidth int) []string { return splitMessage(input, maxWidth) }
+
+// VerifEventSplit exposes Event.split.
+func VerifEventSplit(e *Event, maxLength int) []*Event { return e.split(maxLength) }
+
+// VerifRate runs ircConn.rate on a connection whose accumulated delay is writeDelay
+// and whose last write happened `since` ago. Returns the new accumulated delay and
+// the delay imposed on this event.
+func VerifRate(writeDelay, since time.Duration, chars int) (newDelay, delay time.Duration) {
+	c := &ircConn{writeDelay: writeDelay, lastWrite: time.Now().Add(-since)}
+	delay = c.rate(chars)
+	return c.writeDelay, delay
+}
+
+// VerifParseCap exposes parseCap.
+func VerifParseCap(raw string) map[string]map[string]string { return parseCap(raw) }
+
+// VerifPossibleCaps returns the sorted capability names the client is willing to request.
+func (c *Client) VerifPossibleCaps() []string {
+	c.state.RLock()
+	m := possibleCapList(c)
+	c.state.RUnlock()
+	out := make([]string, 0, len(m))
+	for k := range m {
+		out = append(out, k)
+	}
+	sort.Strings(out)
+	return out
+}
+
+// VerifCapState returns sorted copies of the negotiation bookkeeping.
+func (c *Client) VerifCapState() (tmp, enabled []string) {
+	c.state.RLock()
+	defer c.state.RUnlock()
+	for k := range c.state.tmpCap {
+		tmp = append(tmp, k)
+	}
+	for k := range c.state.enabledCap {
+		enabled = append(enabled, k)
+	}
+	sort.Strings(tmp)
+	sort.Strings(enabled)
+	return tmp, enabled
+}
+
+// VerifSTS is a read-only view of the strict transport policy.
+type VerifSTS struct {
+	BeginUpgrade        bool
+	UpgradePort         int
+	PersistenceDuration int
+	Preload             bool
+	Enabled             bool
+	LastFailedZero      bool
+}
+
+// VerifSTSState returns the strict transport policy currently held.
+func (c *Client) VerifSTSState() VerifSTS {
+	c.state.RLock()
+	defer c.state.RUnlock()
+	s := c.state.sts
+	return VerifSTS{s.beginUpgrade, s.upgradePort, s.persistenceDuration, s.preload, s.enabled(), s.lastFailed.IsZero()}
+}
+
+// VerifSetSTS installs a policy (to start a scenario from a given policy state).
+func (c *Client) VerifSetSTS(port, duration int, receivedAgo time.Duration) {
+	c.state.Lock()
+	c.state.sts.upgradePort = port
+	c.state.sts.persistenceDuration = duration
+	c.state.sts.persistenceReceived = time.Now().Add(-receivedAgo)
+	c.state.Unlock()
+}
+
+// VerifLimits returns maxLineLength and maxPrefixLength.
+func (c *Client) VerifLimits() (line, prefix int) {
+	c.state.RLock()
+	defer c.state.RUnlock()
+	return c.state.maxLineLength, c.state.maxPrefixLength
+}
+
+// VerifTables returns copies of the formatting tables and default capability names.
+func VerifTables() (colors map[string]int, codes map[string]string, caps []string) {
+	colors = map[string]int{}
+	for k, v := range fmtColors {
+		colors[k] = v
+	}
+	codes = map[string]string{}
+	for k, v := range fmtCodes {
+		codes[k] = v
+	}
+	for k := range possibleCap {
+		caps = append(caps, k)
+	}
+	sort.Strings(caps)
+	return colors, codes, caps
+}
+
+// VerifModes is a read-only view of a CModes value.
+type VerifMode struct {
+	Name byte
+	Args string
+}
+
+// VerifModeList returns the stored modes in storage order.
+func (c *CModes) VerifModeList() (out []VerifMode) {
+	for _, m := range c.modes {
+		out = append(out, VerifMode{m.name, m.args})
+	}
+	return out
+}
+
+// VerifModesData returns the address of the backing array of the stored mode list.
+func (c *CModes) VerifModesData() uintptr {
+	if len(c.modes) == 0 && cap(c.modes) == 0 {
+		return 0
+	}
+	return reflect.ValueOf(c.modes).Pointer()
+}
+
+// VerifPermsMap returns a sorted dump of a user's permission map and the identity of
+// the map object.
+func (p *UserPerms) VerifPermsMap() (keys []string, vals []Perms, id uintptr) {
+	p.mu.RLock()
+	defer p.mu.RUnlock()
+	for k := range p.channels {
+		keys = append(keys, k)
+	}
+	sort.Strings(keys)
+	for _, k := range keys {
+		vals = append(vals, p.channels[k])
+	}
+	return keys, vals, reflect.ValueOf(p.channels).Pointer()
+}
+
+// VerifLiveIdentity returns, for the live (tracked) user or channel of that name, the
+// addresses of the backing arrays of its lists and of its permission map / mode list,
+// so that sharing with a snapshot can be observed even when no element differs.
+func (c *Client) VerifLiveIdentity(kind, name string) (list, aux uintptr, ok bool) {
+	c.state.RLock()
+	defer c.state.RUnlock()
+	switch kind {
+	case "user":
+		u := c.state.lookupUser(name)
+		if u == nil {
+			return 0, 0, false
+		}
+		if cap(u.ChannelList) > 0 {
+			list = reflect.ValueOf(u.ChannelList).Pointer()
+		}
+		return list, reflect.ValueOf(u.Perms.channels).Pointer(), true
+	case "channel":
+		ch := c.state.lookupChannel(name)
+		if ch == nil {
+			return 0, 0, false
+		}
+		if cap(ch.UserList) > 0 {
+			list = reflect.ValueOf(ch.UserList).Pointer()
+		}
+		return list, ch.Modes.VerifModesData(), true
+	}
+	return 0, 0, false
+}
+
+// VerifLiveKeys returns the raw map keys of the tracked users and channels (sorted).
+func (c *Client) VerifLiveKeys() (users, channels []string) {
+	c.state.RLock()
+	defer c.state.RUnlock()
+	for k := range c.state.users {
+		users = append(users, k)
+	}
+	for k := range c.state.channels {
+		channels = append(channels, k)
+	}
+	sort.Strings(users)
+	sort.Strings(channels)
+	return users, channels
+}
+
+// VerifTryStateLock reports whether the state lock can be taken right now (a held
+// lock after a handler returned means the client is wedged).
+func (c *Client) VerifTryStateLock() bool {
+	if c.state.TryLock() {
+		c.state.Unlock()
+		return true
+	}
+	return false
+}
+
+// VerifQueues returns the number of queued, unprocessed incoming and outgoing events.
+func (c *Client) VerifQueues() (rx, tx int) { return len(c.rx), len(c.tx) }
